@@ -286,15 +286,14 @@ Definition aardvark_send_receive := i2c_send_receive aardvark_view aardvark_wire
 (* ------------------------------------------------------------------------- *)
 (* the accessibility probe  is_ipmc_accessible(target)                         *)
 (* ------------------------------------------------------------------------- *)
-(* IpmbDev / Aardvark .is_ipmc_accessible:
+(* IpmbDev / Aardvark .is_ipmc_accessible (after fix e991e92):
+     self._inc_sequence_number()               # the probe is a request of its own
      header = IpmbHeaderReq(): netfn = 6, rs_lun = 0, rs_sa = target.ipmb_address,
-       rq_seq = self.next_sequence_number      # the CURRENT value: the number of the last
-                                               # request; the counter is NOT advanced
-       rq_lun = 0, rq_sa = self.slave_address, cmdid = 1
+       rq_seq = self.next_sequence_number, rq_lun = 0, rq_sa = self.slave_address, cmdid = 1
      self._send_raw(header, None); self._receive_raw(header); return True
    One attempt, no retry: IpmiTimeoutError and IOError propagate. *)
 Definition probe_header (st : i2c_state) (rs_sa : N) : hdr :=
-  mkHdr rs_sa 0 (i_slave st) 0 (i_next_seq st) NETFN_APP 1.
+  mkHdr rs_sa 0 (i_slave st) 0 (inc_seq (i_next_seq st)) NETFN_APP 1.
 
 (* _receive_raw as called by the probe: like [i2c_recv], but an IOError is not caught *)
 Fixpoint i2c_probe_recv (view : list N -> res (list N)) (h : hdr) (s : list event) : rx_result * list event :=
@@ -318,14 +317,15 @@ Fixpoint i2c_probe_recv (view : list N -> res (list N)) (h : hdr) (s : list even
 Definition i2c_probe (view : list N -> res (list N)) (wire : list N -> list N)
            (st : i2c_state) (rs_sa : N) (s : list event)
   : res (list N) * i2c_state * list (list N) * list event :=
+  let st' := mkI2c (inc_seq (i_next_seq st)) (i_max_retries st) (i_slave st) in
   let h := probe_header st rs_sa in
   match encode_ipmb_msg h [] with
-  | Err e => (Err e, st, [], s)
+  | Err e => (Err e, st', [], s)
   | Ok tx =>
     match i2c_probe_recv view h s with
-    | (RxMatch _, s') => (Ok [], st, [wire tx], s')
-    | (RxTimeout, s') => (Err TimeoutError, st, [wire tx], s')
-    | (RxRaise e, s') => (Err e, st, [wire tx], s')
+    | (RxMatch _, s') => (Ok [], st', [wire tx], s')
+    | (RxTimeout, s') => (Err TimeoutError, st', [wire tx], s')
+    | (RxRaise e, s') => (Err e, st', [wire tx], s')
     end
   end.
 
